@@ -57,7 +57,7 @@ def build(tier, flavours):
             if r.returncode != 0:
                 raise BuildFailure("sbeppc rejected corpus schema %s (C07/C08 are not claimed here; this is a build failure, not a verdict):\n%s" % (n, r.stdout[-2000:]))
         compile_jobs = []
-        link_jobs = []
+        links = []
         for fl in flavours:
             cxx, std, flags = FLAVOURS[fl]
             base = [cxx, "-std=" + std] + flags + ["-I" + os.path.join(REPO, "sbepp/src"), "-I" + os.path.join(d, "gen"), "-I" + WIRE]
@@ -68,11 +68,94 @@ def build(tier, flavours):
                 objs.append(o)
             compile_jobs.append((fl + "_main.o", base + ["-c", os.path.join(WIRE, "main.cpp"), "-o", fl + "_main.o"]))
             objs.append(fl + "_main.o")
-            link_jobs.append(("wire_" + fl, [cxx] + objs + ["-o", "wire_" + fl]))
-        return [compile_jobs, link_jobs]
+            links.append((fl, cxx, objs))
 
-    d = Builder().build("wire-" + tag_tier, h, jobs)
+        by_name = dict(compile_jobs)
+
+        def retry_stage(failed):
+            # a driver TU whose *generated headers* (or sbepp.hpp) do not compile under the driver's full API use
+            # is compiled again in its fallback form (plain cursor only, no wrapper / by-tag-cursor routes): the
+            # checks can then still examine the schema through everything else, and report the failure
+            # (api_failures). The reduced object has another name so that failures.json keeps the original entry.
+            return [("reduced_" + o, [a for a in by_name[o][:-1]] [:-1] + ["-DWIRE_REDUCED_API", "-o", "reduced_" + o]) for o in sorted(failed) if o in by_name]
+
+        def link_stage(failed):
+            jobs = []
+            for fl, cxx, objs in links:
+                use = []
+                for o in objs:
+                    if o not in failed:
+                        use.append(o)
+                    elif "reduced_" + o not in failed:
+                        use.append("reduced_" + o)  # else: left out altogether
+                jobs.append(("wire_" + fl, [cxx] + use + ["-o", "wire_" + fl]))
+            return jobs
+
+        return [compile_jobs, retry_stage, link_stage]
+
+    def tolerate(name, output):
+        if name.endswith("_main.o"):
+            return False
+        if name.startswith("reduced_"):
+            return True
+        for line in output.split("\n"):
+            if ": error:" in line or ": fatal error:" in line:
+                path = line.split(":", 1)[0].strip()
+                # the first error decides: inside the repository's header or the generated headers -> tolerated
+                return os.path.abspath(path).startswith(os.path.abspath(REPO) + os.sep) or "/gen/" in path
+        return False
+
+    d = Builder().build("wire-" + tag_tier, h, jobs, tolerate=tolerate)
     return {fl: os.path.join(d, "wire_" + fl) for fl in flavours}, d
+
+
+# Which statements name the API form a driver TU could not even compile: the words are looked for in the
+# compiler's instantiation trace (driver_core function names and sbepp entities).
+API_WORDS = {
+    "C04": ["cursor_ops", "cursor_wrapper", "cursor_range", "cursor_subrange", "with_wrapper", "cursor_level", "encode_level_cursor", "cursor<"],
+    "C19": ["get_by_tag", "set_by_tag", "visit_children", "visit_tag", "Recorder", "sbepp::visit"],
+    "C13": ["data_history", "dynamic_array_ref"],
+    "C10": [""],  # any accessor, iterator step or container operation of any generated view
+}
+
+
+def api_failures(prop, d):
+    """[(flavour, schema, first error line, whole output)] for driver TUs that did not compile although sbeppc
+    accepted the schema, restricted to failures that involve an API form the property's statement names."""
+    try:
+        failed = json.load(open(os.path.join(d, "failures.json")))
+    except (OSError, ValueError):
+        return []
+    out = []
+    for name, info in sorted(failed.items()):
+        if name.startswith("reduced_"):
+            log("[build] ... and neither does the fallback form of %s: the schema is left out of this run" % name[8:])
+            continue
+        words = API_WORDS.get(prop)
+        fl, schema = name[:-2].rsplit("_", 1)
+        text = info["output"]
+        first = next((l for l in text.split("\n") if ": error:" in l), "")
+        log("[build] generated code does not compile: schema %s, flavour %s: %s" % (schema, fl, first.strip()[:300]))
+        if words is not None and any(w in text for w in words):
+            out.append((fl, schema, first.strip(), text))
+    return out
+
+
+def report_api_failures(prop, d):
+    """Prints one VIOLATION per (schema) whose driver could not be compiled; returns their number."""
+    seen = set()
+    n = 0
+    for fl, schema, first, text in api_failures(prop, d):
+        if schema in seen:
+            continue
+        seen.add(schema)
+        path = os.path.join(VERIF, "replays", "%s-build-%s.plan" % (prop, schema))
+        os.makedirs(os.path.dirname(path), exist_ok=True)
+        open(path, "w").write("property %s\nengine wire-build\nflavour %s\nschema %s\nexpect %s:api-does-not-compile\n# %s\n" % (prop, fl, schema, prop, first.replace("\n", " ")[:500]))
+        log("VIOLATION property=%s replay=%s" % (prop, path))
+        log("  signature=%s:api-does-not-compile schema %s (%s): sbeppc accepted the schema, but a call the statement covers does not compile against the generated headers: %s" % (prop, schema, fl, first[:400]))
+        n += 1
+    return n
 
 
 REAL = ["sbepp.hpp (compiled from /repo's working tree)", "every header the sbeppc built from /repo's working tree generates for the corpus schemas (views, accessors, cursor accessors, visit_children bodies, header fillers)"]
@@ -108,7 +191,7 @@ def run_c06(tier, args):
     herr = False
     per = {"quick": {"unchecked": 12000, "checked": 4000, "unchecked_O0": 4000}, "thorough": {"unchecked": 400000, "checked": 100000, "unchecked_O0": 100000, "unchecked_clang20": 100000}}[tier]
     nreg, regbad = run_regressions("C06", lambda t: bins["checked" if "\nbuild checked" in t else "unchecked"], extra=extra)
-    nviol += regbad
+    nviol += regbad + report_api_failures("C06", d)
     for fl in flavours:
         b = run_batch(bins[fl], "C06", tier, first, per[fl], out, extra=extra)
         log("[C06] %s: %d plans, %d evaluations in %.1fs, %d violating" % (fl, b.runs, b.counters.get("c06.evaluations", 0), b.wall, len(b.violations)))
@@ -153,7 +236,7 @@ def run_c10(tier, args):
     nviol = 0
     herr = False
     nreg, regbad = run_regressions("C10", lambda t: os.path.join(eng_dynarr.build(), "dynarr_checked") if "\nengine dynarr" in t else bins["checked"], extra=extra)
-    nviol += regbad
+    nviol += regbad + report_api_failures("C10", d)
     total = Batch()
     runs = [("checked", 3000 if tier == "quick" else 60000)]
     if tier != "quick":
@@ -206,7 +289,7 @@ def _run_simple(prop, tier, counts, level, rule, extra_cov, assumptions, eval_co
     extra, known = known_arg(prop)
     first = first_run_seed()
     nreg, regbad = run_regressions(prop, lambda t: bins["checked" if "\nbuild checked" in t else "unchecked"], extra=extra)
-    nviol = regbad
+    nviol = regbad + report_api_failures(prop, d)
     herr = False
     total = Batch()
     used = []
@@ -269,6 +352,17 @@ def run_c03(tier, args):
 
 def replay(prop, path):
     plan = open(path).read()
+    if "\nengine wire-build" in plan:
+        # a driver TU that did not compile: rebuild and look again
+        bins, d = build("quick", tier_flavours("quick"))
+        want = [l.split(" ", 1)[1].strip() for l in plan.split("\n") if l.startswith("schema ")]
+        hit = [f for f in api_failures(prop, d) if f[1] in want]
+        for fl, schema, first, text in hit:
+            log("schema %s (%s) still does not compile: %s" % (schema, fl, first[:400]))
+        if hit:
+            log("VIOLATION property=%s replay=%s" % (prop, path))
+            return 1
+        return 0
     if "\nengine dynarr" in plan:
         import eng_dynarr
         return eng_dynarr.replay(prop, path)
